@@ -320,6 +320,8 @@ def field_array(value: bytes) -> typing.Tuple[int, common.FieldArray]:
         offset = 4
         data = []
         field_array_end = offset + length
+        if field_array_end > len(value):
+            raise ValueError('Field array length exceeds the available data')
         while offset < field_array_end:
             consumed, result = embedded_value(value[offset:])
             offset += consumed
@@ -342,6 +344,8 @@ def field_table(value: bytes) -> typing.Tuple[int, common.FieldTable]:
         offset = 4
         data = {}
         field_table_end = offset + length
+        if field_table_end > len(value):
+            raise ValueError('Field table length exceeds the available data')
         while offset < field_table_end:
             key_length = common.Struct.byte.unpack_from(value, offset)[0]
             offset += 1
